@@ -153,6 +153,9 @@ func schedCase(col *Collector, focus string, p *schedPlan, tag string) {
 	if hasNested(c) {
 		cs.Tags = append(cs.Tags, "nested")
 	}
+	if c.shared {
+		cs.Tags = append(cs.Tags, "shared-task")
+	}
 	if cancelledRun {
 		cs.Tags = append(cs.Tags, "cancelled")
 	}
@@ -231,7 +234,7 @@ func runSched(col *Collector, focus, tier string, seed int64) {
 		tags = append(tags, tag)
 	}
 	mk := func(n int, deps [][]int, kinds []byte) *schedCfg {
-		c := &schedCfg{n: n, deps: deps, order: rng.Perm(n)}
+		c := &schedCfg{n: n, deps: deps, order: rng.Perm(n), shared: n >= 2 && rng.Intn(5) == 0}
 		applyKinds(c, kinds)
 		return c
 	}
